@@ -131,7 +131,38 @@ def rule_r2_r3(rep, repo):
         raise AnalysisError(f"integrate routes not all found: {done}")
 
 
+def _every_term_contributes(rep, repo, f, lp):
+    """The accumulation over paired (points, weight) items must take every pair: no `break`, no
+    `continue` / conditional accumulation other than skipping an exactly-zero weight."""
+    zero_tests = set()
+    names = [n.id for n in ast.walk(lp.target) if isinstance(n, ast.Name)]
+    for w in names:
+        zero_tests |= {f"{w} == 0", f"{w} == 0.0", f"0 == {w}", f"0.0 == {w}", f"not {w}"}
+    bad = None
+    for st in lp.body:
+        for n in ast.walk(st):
+            if isinstance(n, ast.Break):
+                bad = (n, "break")
+            if isinstance(n, ast.If) and any(isinstance(x, (ast.Continue, ast.Break)) for x in ast.walk(n)) and \
+                    norm(n.test) not in zero_tests:
+                bad = (n, f"`if {norm(n.test)[:50]}: continue`")
+        if isinstance(st, ast.If) and any(isinstance(x, ast.AugAssign) for x in ast.walk(st)) and norm(st.test) not in \
+                {f"{w} != 0" for w in names} | {f"{w} != 0.0" for w in names} | set(names):
+            bad = (st, f"accumulation only `if {norm(st.test)[:50]}`")
+    if bad is None:
+        rep.ok("R2.every-combination-contributes", f"{f.qual}:{norm(lp.iter)[:50]}", repo.rel("ngrid", lp),
+               "the loop accumulates every (points, weight) pair")
+    else:
+        rep.violation("R2.every-combination-contributes", f.qual if f.qual.startswith("ngrid.") else "ngrid." + f.qual,
+                      norm(lp.iter)[:50],
+                      f"{bad[1]} inside the accumulation over paired points and weights: some combinations are left out of "
+                      f"the sum (only an exactly-zero weight may be skipped), so the routes disagree e.g. for rules with "
+                      f"negative weights", repo.rel("ngrid", bad[0]))
+
+
 def _streams_of(rep, repo, f, loops, done):
+    for lp_ in loops:
+        _every_term_contributes(rep, repo, f, lp_)
     vg = e5.VG(repo, "MultiDomainGrid", f.node)
     # evaluate everything except the loops themselves (we only need the stream definitions)
     def run(body):
@@ -165,13 +196,6 @@ def _streams_of(rep, repo, f, loops, done):
             # R3: chunked streams
             if not (a[0] == "call" and b[0] == "call" and e5.show(a[1]) == "_chunked_iterator" == e5.show(b[1])):
                 raise AnalysisError("unrecognised idiom: chunk streams are not both _chunked_iterator(...) calls")
-            sa, sb = a[2][1:] + tuple(a[3]), b[2][1:] + tuple(b[3])
-            if sa == sb:
-                rep.ok("R3.same-chunk-size", "MultiDomainGrid.integrate", repo.rel("ngrid", lp), e5.show(a[2][1], 60))
-            else:
-                rep.violation("R3.same-chunk-size", "ngrid.MultiDomainGrid.integrate", "chunk_size",
-                              f"weights are chunked by {e5.show(sa, 60)} but values by {e5.show(sb, 60)}: zip() pairs "
-                              f"chunks of different length and silently drops the tail", repo.rel("ngrid", lp))
             streams = {"w": None, "v": None}
             # `self.points` / `self.weights` as this graph spells them (a one-line getter is inlined)
             PTS = (("attr", ("sym", "self"), "points"), vg.ev(ast.parse("self.points", mode="eval").body))
@@ -184,6 +208,13 @@ def _streams_of(rep, repo, f, loops, done):
                     streams["v"] = src
             if streams["w"] is None or streams["v"] is None:
                 raise AnalysisError("unrecognised idiom: chunked streams are not (self.weights, values-from-self.points)")
+            sa, sb = a[2][1:] + tuple(a[3]), b[2][1:] + tuple(b[3])
+            if sa == sb:
+                rep.ok("R3.same-chunk-size", "MultiDomainGrid.integrate", repo.rel("ngrid", lp), e5.show(a[2][1], 60))
+            else:
+                rep.violation("R3.same-chunk-size", "ngrid.MultiDomainGrid.integrate", "chunk_size",
+                              f"weights are chunked by {e5.show(sa, 60)} but values by {e5.show(sb, 60)}: zip() pairs "
+                              f"chunks of different length and silently drops the tail", repo.rel("ngrid", lp))
             v = streams["v"]
             it = v[3][0][0]
             elt = v[2]
@@ -288,8 +319,8 @@ def run(tier="quick", root="/repo", evidence_dir=None, quiet=False):
     ])
     repo = get_repo(root)
     P = rule_r1(rep, repo)
-    rule_r2_r3(rep, repo)
-    rule_r4(rep, repo, P)
+    rep.attempt(rule_r2_r3, rep, repo)   # an undecided stream does not mask violations already found
+    rep.attempt(rule_r4, rep, repo, P)
     # _chunked_iterator: islice of one shared iterator, stops on empty chunk
     g = repo.module_func("ngrid", "_chunked_iterator")
     txt = " ".join(norm(s) for s in g.node.body)
